@@ -200,7 +200,7 @@ theorem rdCellSection_ok {cfg : Cfg} {cm v np : Nat} {ci : CellInfo} {N ncell : 
 theorem kwSectionL_cases {α : Type} {v : Nat} {bs : Bytes} {kp : KeyPos} {kw : Nat} {dflt a : α}
     {body : Int → P α} (h : kwSectionL v bs kp kw dflt body = .ok a) :
     a = dflt ∨ ∃ next s0 n s r, jump v bs kp kw = .ok (some (next, s0)) ∧ rdLong v s0 = .ok (n, s) ∧
-      body n s = .ok (a, r) ∧ next = tell bs r := by
+      body n s = .ok (a, r) ∧ next = tell bs r ∧ countFits n s = true := by
   unfold kwSectionL at h
   cases h1 : jump v bs kp kw with
   | error e => simp [h1] at h
@@ -215,6 +215,10 @@ theorem kwSectionL_cases {α : Type} {v : Nat} {bs : Bytes} {kp : KeyPos} {kw : 
       | ok p2 =>
       obtain ⟨n, s⟩ := p2
       simp only [h2] at h
+      cases hfit : countFits n s with
+      | false => simp [hfit] at h
+      | true =>
+      simp only [hfit, Bool.not_true, Bool.false_eq_true, if_false] at h
       cases h3 : body n s with
       | error e => simp [h3] at h
       | ok p3 =>
@@ -223,7 +227,7 @@ theorem kwSectionL_cases {α : Type} {v : Nat} {bs : Bytes} {kp : KeyPos} {kw : 
       split at h
       · rename_i hnext
         injection h with h; subst h
-        exact .inr ⟨next, s0, n, s, r, rfl, h2, h3, hnext⟩
+        exact .inr ⟨next, s0, n, s, r, rfl, h2, h3, hnext, hfit⟩
       · simp at h
 
 /-- every group of an accepted file consists of non-empty chunks of routable cells -/
@@ -252,7 +256,7 @@ theorem rdCellGroupsP_ok {cfg : Cfg} {cm v np : Nat} {bs : Bytes} {kp : KeyPos} 
     intro p hp
     simp only [List.zip_cons_cons, List.mem_cons] at hp
     rcases hp with rfl | hp
-    · rcases kwSectionL_cases h1 with rfl | ⟨next, s0, n, s, r, _, _, hb, _⟩
+    · rcases kwSectionL_cases h1 with rfl | ⟨next, s0, n, s, r, _, _, hb, _, _⟩
       · simp
       · exact rdCellSection_ok (hcis ci List.mem_cons_self) hb
     · exact hrest p hp
